@@ -29,7 +29,7 @@ def describe(c):
 def run(run, replay=None):
     rng = random.Random(run.seed)
     quick = run.tier == 'quick'
-    _rcommon.mc_reader(run, ['Unknown', 'Total'], props=(), quick=(3, 0), thorough=(4, 0))
+    _rcommon.mc_reader(run, ['Unknown', 'Total'], props=(), quick=(3, 0), thorough=(5, 0))
     cat = Catalog()
     _rcommon.note_pools(cat)
     paths = [p for p in _rcommon.legal_paths(run, 7 if quick else 8) if len(p) >= 2]
